@@ -71,6 +71,15 @@ func c07Sizes(r *vlib.Rand, cursor uint64) uint64 {
 	}
 }
 
+// c07Frame draws a start frame: any magnitude, and one time in five the first frames of physical memory
+// (start page + page count has its smallest values there).
+func c07Frame(r *vlib.Rand) mm.Frame {
+	if r.Intn(5) == 0 {
+		return mm.Frame(r.Intn(3))
+	}
+	return mm.Frame(r.U64() >> uint(12+r.Intn(40)))
+}
+
 func TestVerifC07(t *testing.T) {
 	run := vlib.Start(t, "C07")
 	defer run.Finish()
@@ -178,7 +187,7 @@ func TestVerifC07(t *testing.T) {
 				lowest = cursor
 			case kind <= 3:
 				triples = triples[:0]
-				frame := mm.Frame(r.U64() >> uint(12+r.Intn(40)))
+				frame := c07Frame(r)
 				flags := PageTableEntryFlag(r.U64()) & (FlagPresent | FlagRW | FlagNoExecute | FlagCopyOnWrite | FlagGlobal)
 				before := earlyReserveLastUsed
 				pg, err := MapRegion(frame, uintptr(size), flags)
@@ -236,7 +245,7 @@ func TestVerifC07(t *testing.T) {
 				cursor, lowest = startAddr, startAddr
 			default:
 				triples = triples[:0]
-				frame := mm.Frame(r.U64() >> uint(12+r.Intn(40)))
+				frame := c07Frame(r)
 				flags := PageTableEntryFlag(r.U64()) & (FlagPresent | FlagRW | FlagNoExecute)
 				before := earlyReserveLastUsed
 				pg, err := IdentityMapRegion(frame, uintptr(size), flags)
